@@ -185,6 +185,10 @@ Proof.
   intros (H1 & H2 & H3). rewrite <- H1. symmetry. apply segments_flat; assumption.
 Qed.
 
+Lemma decomposition_char s :
+  decomposition s (segments s) /\ forall l, decomposition s l -> l = segments s.
+Proof. split; [apply segments_decomposition|apply decomposition_unique]. Qed.
+
 (* ---------- extract_tokens = the admissible runs of the decomposition ---------- *)
 
 Fixpoint seg_tokens (l : list seg) (i : N) : list (N * N) :=
